@@ -20,6 +20,7 @@ func init() {
 	rt.Register("C11_times", VerifHarness_C11_times)
 	rt.Register("C11_fill", VerifHarness_C11_fill)
 	rt.Register("C11_wide_swap", VerifHarness_C11_wide_swap)
+	rt.Register("C11_reduce_twice", VerifHarness_C11_reduce_twice)
 }
 
 func bitElems(name string, n int) []T {
@@ -244,6 +245,37 @@ func VerifHarness_C11_wide_swap() {
 	}
 	rt.Assert(ok, "M * RowReduce(M,N) == N (row exchange, 300 columns)")
 	unchanged(n, els0, "N unchanged")
+}
+
+// Two reductions in one process: a narrow one first, then the wide row
+// exchange; the second result does not depend on the first call.
+func VerifHarness_C11_reduce_twice() {
+	m := NewMatrixFromSlice(2, 2, []T{0, 1, 1, 0})
+	w1 := 1 + rt.Choice("firstWidth", 3)
+	n1 := make([]T, 2*w1)
+	for i := range n1 {
+		n1[i] = T(i + 7)
+	}
+	_, err := m.RowReduceForInverse(NewMatrixFromSlice(2, w1, n1))
+	rt.Assert(err == nil, "error only for a singular matrix")
+	cols := []int{2, 5, 9}[rt.Choice("secondWidth", 3)]
+	els := make([]T, 2*cols)
+	for i := range els {
+		els[i] = T(rt.U16("e" + string(rune('A'+i))))
+	}
+	els0 := append([]T(nil), els...)
+	r, err := m.RowReduceForInverse(NewMatrixFromSlice(2, cols, els))
+	rt.Assert(err == nil, "error only for a singular matrix")
+	if err != nil {
+		return
+	}
+	ok := true
+	for j := 0; j < cols; j++ {
+		if r.At(0, j) != els0[cols+j] || r.At(1, j) != els0[j] {
+			ok = false
+		}
+	}
+	rt.Assert(ok, "M * RowReduce(M,N) == N, whatever was reduced before")
 }
 
 // The matrix product is the row-by-column product (symbolic 2x2 by 2x2).
